@@ -361,6 +361,9 @@ func (w *worker) start(opts []string) {
 	if ms, _ := strconv.Atoi(o["readtimeout"]); ms > 0 {
 		sopts = append(sopts, gldap.WithReadTimeout(time.Duration(ms)*time.Millisecond))
 	}
+	if ms, _ := strconv.Atoi(o["writetimeout"]); ms > 0 {
+		sopts = append(sopts, gldap.WithWriteTimeout(time.Duration(ms)*time.Millisecond))
+	}
 	srv, err := gldap.NewServer(sopts...)
 	if err != nil {
 		w.ev("start-err %v", err)
